@@ -173,6 +173,19 @@ CHECKS = {
              "affinity only on this machine's one-socket 16-PU topology. bind=none oversubscription and satisfiable requests pika "
              "rejects are recorded, not judged.",
         ref="DESIGN.md section 2, C15"),
+    "C16": dict(
+        technique="runtime monitoring: configuration-source sweep of the real start-up (pika::init) with an in-runtime probe (worker count, "
+                  "scheduler, per-worker PU masks, configured and measured/touched stack of every class, config entries, argv of the entry "
+                  "function); reference resolver + differential comparison against a canonical single-source run",
+        text="Exploration: ~1400 (quick) / ~30000 (thorough) starts per run: every setting gets distinct values through a random subset of "
+             "{environment variable, PIKA_COMMANDLINE_OPTIONS as option or as --pika:ini, --pika:ini, dedicated option}, shuffled, on the real "
+             "and three synthetic topologies; one invalid value / unknown option per invalid case through every source (must stop start-up "
+             "before the entry function); positional, registered and unknown application arguments interleaved with pika options.",
+        note="Where the statement leaves an order open (two environment-level sources; --pika:ini and the dedicated option both on the command "
+             "line) any value of the winning level is accepted. D10 fixed; D18 (PIKA_COMMANDLINE_OPTIONS entries not overridden by the command "
+             "line), D19 (application arguments with backslash/quote/$ mangled), D20 (bind=none oversubscription silently clamped) and D21 "
+             "(invalid small stack size hangs under shared-priority) are listed known findings keyed by input class.",
+        ref="DESIGN.md section 2, C16"),
 }
 
 NOT_YET = "not claimed yet: harness under construction in this session (see DESIGN.md section 2)"
